@@ -251,7 +251,15 @@ static int dgram_cb(tp_task_p tptask, int error, struct sockaddr_storage *addr, 
 		t->last_arm = sim_now();
 		return TP_TASK_CB_CONTINUE;
 	}
-	if (error != 0) { t->err_reported++; if (!t->faults_seen && !t->peer_closed) sim_violation("io-false-error", "task %d: datagram error %d without a fault", t->slot, error); apply_action(t, A_STOP); return TP_TASK_CB_NONE; }
+	if (error != 0) {
+		/* an error report is not a datagram and a datagram is not an error report */
+		if (transfered_size != 0 || addr != NULL) { sim_violation("io-error-with-data", "task %d: datagram callback with error %d AND a datagram of %zu byte(s)", t->slot, error, transfered_size); return TP_TASK_CB_NONE; }
+		t->err_reported++;
+		if (!t->faults_seen && !t->peer_closed) { sim_violation("io-false-error", "task %d: datagram error %d without a fault", t->slot, error); return TP_TASK_CB_NONE; }
+		if (t->faults_seen && !t->peer_closed && script(t, t->ncb) % 100 < 60) { sim_probe("c16.dgram_continue_after_error"); t->last_arm = sim_now(); return TP_TASK_CB_CONTINUE; } /* transient: carry on */
+		apply_action(t, A_STOP);
+		return TP_TASK_CB_NONE;
+	}
 	if (t->dg_recv >= t->dg_sent) { sim_violation("io-data", "task %d: datagram #%d delivered but only %d were sent", t->slot, t->dg_recv, t->dg_sent); return TP_TASK_CB_NONE; }
 	if (transfered_size != t->dg_len[t->dg_recv]) { sim_violation("io-count", "task %d: datagram #%d reported with %zu bytes, %zu were sent", t->slot, t->dg_recv, transfered_size, t->dg_len[t->dg_recv]); return TP_TASK_CB_NONE; }
 	if (buf->offset != t->last_off + transfered_size) { sim_violation("io-count", "task %d: datagram of %zu bytes moved the buffer offset from %zu to %zu", t->slot, transfered_size, t->last_off, buf->offset); return TP_TASK_CB_NONE; }
@@ -569,6 +577,14 @@ static void op_task(const item_t *it) {
 	switch (t->kind) {
 	case K_RECV: case K_SEND: {
 		uint16_t ev = (t->kind == K_RECV) ? TP_EV_READ : TP_EV_WRITE;
+		if (item_get(it, "ext", 0)) {
+			/* created and started by a thread that is NOT the task's pool thread (the usual way a main thread hands a
+			 * connection to a worker): the task's thread may already be serving it while tp_task_start() is still
+			 * returning here. Two steps, so that the callbacks know the task object. */
+			sim_probe("c16.started_from_another_thread");
+			rc = tp_task_create(tpt, (uintptr_t)t->fd, tp_task_sr_handler, t->tflags, t, &t->task);
+			if (0 == rc) rc = tp_task_start(t->task, ev, t->evfl, t->timeout_ms, 0, &t->buf, stream_cb);
+		} else
 		if (item_get(it, "sfio", 1)) rc = tp_task_create_start(tpt, (uintptr_t)t->fd, tp_task_sr_handler, t->tflags, ev, t->evfl, t->timeout_ms, 0, &t->buf, stream_cb, t, &t->task);
 		else {
 			if (item_get(it, "hsw", 0)) {
@@ -734,6 +750,8 @@ static void *c16_actor(void *arg) {
 		else {
 			int slot = (int)item_get(&op->it, "t", 0) % MAX_TASK, thr;
 			thr = (0 == strcmp(k, "task")) ? (int)item_get(&op->it, "thr", 0) % PW->n : T[slot].thr;
+			if (0 == strcmp(k, "task") && item_get(&op->it, "ext", 0)) c16_exec(op, i);   /* from this (non-pool) thread */
+			else
 			world_send_carrier(i, 0, thr);
 			if (0 == strcmp(k, "task")) sim_wait_idle(20000000ull);
 		}
@@ -814,6 +832,11 @@ static void c16_gen(plan_t *p, rng_t *r, int tier) {
 		item_set(&op->it, "sfio", rng_chance(r, 700));
 		if (!item_get(&op->it, "sfio", 1) && rng_chance(r, 400)) item_set(&op->it, "hsw", 1);
 		if (kind == K_RECV && rng_chance(r, 400)) item_set(&op->it, "pre", (long long)rng_range(r, 1, 400));
+		if (kind == K_RECV && rng_chance(r, 150)) {
+			/* plain persistent receive task handed over from a non-pool thread, usually with data already waiting */
+			item_set(&op->it, "ext", 1); item_set(&op->it, "evfl", 0); item_set(&op->it, "sfio", 1); item_set(&op->it, "hsw", 0);
+			if (rng_chance(r, 700)) item_set(&op->it, "pre", (long long)rng_range(r, 1, 400));
+		}
 		if (kind == K_CONNECT) item_set(&op->it, "pending", rng_chance(r, 700));
 		if (kind == K_DGRAM) item_set(&op->it, "dgb", rng_chance(r, 500));
 		if (kind == K_CONNEX) {
